@@ -239,6 +239,8 @@ func checkC15(c *run.Ctx) {
 
 	// A declared type whose fields do not decode (a scalar where a list or mapping belongs) next to a well-typed key
 	// of another family: the step is kept as an unknown step - the other family's key never takes over.
+	c15EditedPhase(c)
+	c15ManyPhase(c)
 	c.Phase("ill-typed", func() {
 		type bad struct {
 			typ, key string
